@@ -1,6 +1,7 @@
 import TunnelModel.LFrame.Server
 import Proofs.Props.C15
 import Proofs.Lemmas.Registry
+import Proofs.Lemmas.LifeAtomic
 /-!
   C10 — graceful shutdown refuses new RPCs and lets in-flight ones finish
   (tunnel-level part: the `closing` flag in `createStream`).  The lifecycle
@@ -116,5 +117,80 @@ theorem C10_isClosing_after_stop (ops : List SOp) (s : RServer) :
 theorem C10_waits_hold_no_lock :
     Proofs.C15.lockedWaitViolations TunnelModel.Generated.accessTable = [] :=
   Proofs.C15.C15_waits_hold_no_lock
+
+/-! ### Serve / Stop / GracefulStop below the API: every interleaving of their critical sections
+     (L-atomic model `TunnelModel/LifeAtomic.lean`; any number of concurrent Serve, Stop and GracefulStop calls) -/
+
+open TunnelModel.LifeAtomic Proofs.LifeAtomic in
+/-- **Stop returns only after every Serve call has returned** — and none can be
+    admitted afterwards: in every reachable state in which some `Stop` has
+    returned, no `Serve` call is running, and none is in any continuation. -/
+theorem C10_stop_returns_only_after_serves (n a b : Nat) (as : List Act) {s : St}
+    (hr : run true false (init n a b) as = some s) {j : Nat} (hj : s.stops[j]? = some .returned) :
+    (∀ (i : Nat) (x : Serve), s.serves[i]? = some x →
+        x.pc = .start ∨ x.pc = .opened ∨ x.pc = .failedOpen ∨ x.pc = .refused ∨ x.pc = .returned) ∧
+    (∀ (as' : List Act) (s' : St), run true false s as' = some s' →
+        ∀ (i : Nat) (x : Serve), s'.serves[i]? = some x → x.pc ≠ .serving ∧ x.pc ≠ .ended) :=
+  stop_returns_only_after_serves n a b as hr hj
+
+open TunnelModel.LifeAtomic Proofs.LifeAtomic in
+/-- **No admission after shutdown began**: once the state has left `active` a
+    `Serve` call that is not yet serving never will be. -/
+theorem C10_no_admission_after_shutdown (n a b : Nat) (as : List Act) {s : St}
+    (hr : run true false (init n a b) as = some s) (hshut : s.state ≠ .active)
+    {i : Nat} {x : Serve} (hi : s.serves[i]? = some x) (hx : x.pc ≠ .serving)
+    (as' : List Act) {s' : St} (hr' : run true false s as' = some s') :
+    ∀ y, s'.serves[i]? = some y → y.pc ≠ .serving :=
+  no_admission_after_shutdown' n a b as hr hshut hi hx as' hr'
+
+open TunnelModel.LifeAtomic Proofs.LifeAtomic in
+/-- **Stop cannot hang by itself**: after its critical section every running
+    `Serve` call has its own next step enabled without any help from the peer
+    (the instance was hung up), and every schedule is finite. -/
+theorem C10_stop_ends_every_tunnel (n a b : Nat) (as : List Act) {s : St}
+    (hr : run true false (init n a b) as = some s) {j : Nat} (hj : Passed s.stops j)
+    {i : Nat} {x : Serve} (hi : s.serves[i]? = some x) (hrun : x.pc.running = true) :
+    ((x.pc = .serving ∧ (step true false s (.tunnelEnds i)).isSome) ∨
+     (x.pc = .ended ∧ (step true false s (.wgDone i)).isSome)) ∧
+    as.length ≤ 6 * n + 2 * a + 2 * b :=
+  ⟨stop_ends_every_tunnel n a b as hr hj hi hrun, by have := schedule_bounded n a b as hr; omega⟩
+
+open TunnelModel.LifeAtomic Proofs.LifeAtomic in
+/-- **GracefulStop waits for the PEER** (the open finding D9, as a theorem about
+    the model that follows the code): with a tunnel up whose peer does not hang
+    up and no `Stop`, a waiting `GracefulStop` stays waiting whatever else
+    happens — there is nothing in the protocol that tells the peer to go away. -/
+theorem C10_gracefulStop_blocked_until_peer_or_stop_partial (n a b : Nat) (as : List Act) {s : St}
+    (hr : run true false (init n a b) as = some s) {k i : Nat}
+    (hst : s.state = .closing) (hk : s.gstops[k]? = some .waiting)
+    (hi : s.serves[i]? = some ⟨.serving, false⟩) :
+    ∀ (as' : List Act) (s' : St), run true false s as' = some s' →
+      (∀ act ∈ as', act ≠ .peerHangup i ∧ ∀ j, act ≠ .stopCS j) →
+      s'.state = .closing ∧ s'.gstops[k]? = some .waiting ∧ s'.serves[i]? = some ⟨.serving, false⟩ ∧
+      step true false s' (.gsWait k) = none ∧ step true false s' (.tunnelEnds i) = none :=
+  gracefulStop_blocked_until_peer_or_stop n a b as hr hst hk hi
+
+open TunnelModel.LifeAtomic Proofs.LifeAtomic in
+/-- **Why the state check and the registration are one critical section** (the
+    seeded change C15-unlocked-state-check-in-addinstance): with the check made
+    before taking the lock, a `Serve` call is admitted after `Stop` has
+    returned, and nothing but the peer will ever end it. -/
+theorem C10_unlocked_check_admits_after_stop :
+    (run false false (init 1 1 0) [.openTunnel 0 true, .check 0, .stopCS 0, .stopWait 0, .add 0]).map
+        (obs false false) =
+      some { state := .closed, wg := 1, hungUp := [], serves := [⟨.serving, false⟩],
+             stops := [.returned], gstops := [], enabled := [.peerHangup 0] } :=
+  faulty_unlocked_check_admits_after_stop
+
+open TunnelModel.LifeAtomic Proofs.LifeAtomic in
+/-- **Why Stop's guard is `state = closed`** (the seeded changes
+    C10-stop-noop-after-gracefulstop / C04-stop-guard-copied-from-gracefulstop):
+    with the guard `state ≠ active`, `Stop` after `GracefulStop` hangs nothing
+    up and both wait for the peer for ever. -/
+theorem C10_stop_guard_not_active_hangs :
+    (run true true (init 1 1 1) [.openTunnel 0 true, .enroll 0, .gsCS 0, .stopCS 0]).map (obs true true) =
+      some { state := .closing, wg := 1, hungUp := [], serves := [⟨.serving, false⟩],
+             stops := [.waiting], gstops := [.waiting], enabled := [.peerHangup 0] } :=
+  faulty_stop_guard_hangs
 
 end Proofs.C10
